@@ -13,7 +13,7 @@ pub const ID: &str = "C17";
 
 pub fn pool() -> NamePool {
     NamePool {
-        classes: ["a.b.C", "a$b", "é.ü.Ünï", "com.example.Foo$Bar", "at", "Caused", "by", "漢.字", "a.b.C$$Lambda$1", "x", "\u{feff}x.Y", "\u{200b}z", "z\u{feff}", "\u{ad}.q", "com.example.Weird:", "a:b", ":x", "x:", "a::", "(b", "b)"].iter().map(|s| s.to_string()).collect(),
+        classes: ["a.b.C", "a$b", "é.ü.Ünï", "com.example.Foo$Bar", "at", "Caused", "by", "漢.字", "a.b.C$$Lambda$1", "x", "\u{feff}x.Y", "\u{200b}z", "z\u{feff}", "\u{ad}.q", "com.example.Weird:", "a:b", ":x", "x:", "a::", "(b", "b)", "java.base/java.lang.Thread", "app//com.example.Main", "a.b$$Lambda$14/0x0000000800066840", "my.module@1.0/a.b.C", "/x", "x/"].iter().map(|s| s.to_string()).collect(),
         methods: ["m", "<init>", "<clinit>", "lambda$x$0", "é", "access$000", "at", "m:", ":", "a)b"].iter().map(|s| s.to_string()).collect(),
         lines: vec![],
         hits: vec![],
